@@ -34,6 +34,7 @@ pub fn dispatch(op: &str, case: &Value) -> Value {
         "j2oas" => op_j2oas(case),
         "register_params" => op_register_params(case),
         "register_tags" => op_register_tags(case),
+        "trait_tags" => op_trait_tags(case),
         _ => json!({"error": format!("unknown op {}", op)}),
     }
 }
@@ -1766,6 +1767,49 @@ fn op_register_params(case: &Value) -> Value {
         Ok(Ok(())) => json!({"rejected": false}),
         Ok(Err(e)) => json!({"rejected": true, "message": format!("{:?}", e)}),
     }
+}
+
+// a trait-based API that declares its tags and leaves `allow_other_tags` at its documented default (false: the set is closed)
+#[dropshot::api_description { tag_config = { tags = { declared = { description = "the only declared tag" } } } }]
+trait ClosedTagsApi {
+    type Context;
+    #[endpoint { method = GET, path = "/rogue", tags = ["rogue"] }]
+    async fn closed_rogue(rqctx: RequestContext<Self::Context>) -> Result<HttpResponseOk<u32>, HttpError>;
+}
+#[dropshot::api_description { tag_config = { tags = { declared = { description = "the only declared tag" } } } }]
+trait ClosedTagsOkApi {
+    type Context;
+    #[endpoint { method = GET, path = "/fine", tags = ["declared"] }]
+    async fn closed_fine(rqctx: RequestContext<Self::Context>) -> Result<HttpResponseOk<u32>, HttpError>;
+}
+#[dropshot::api_description { tag_config = { allow_other_tags = true, tags = { declared = { description = "the only declared tag" } } } }]
+trait OpenTagsApi {
+    type Context;
+    #[endpoint { method = GET, path = "/rogue", tags = ["rogue"] }]
+    async fn open_rogue(rqctx: RequestContext<Self::Context>) -> Result<HttpResponseOk<u32>, HttpError>;
+}
+enum TagsImpl {}
+impl ClosedTagsApi for TagsImpl {
+    type Context = ();
+    async fn closed_rogue(_rqctx: RequestContext<()>) -> Result<HttpResponseOk<u32>, HttpError> { Ok(HttpResponseOk(1)) }
+}
+impl ClosedTagsOkApi for TagsImpl {
+    type Context = ();
+    async fn closed_fine(_rqctx: RequestContext<()>) -> Result<HttpResponseOk<u32>, HttpError> { Ok(HttpResponseOk(1)) }
+}
+impl OpenTagsApi for TagsImpl {
+    type Context = ();
+    async fn open_rogue(_rqctx: RequestContext<()>) -> Result<HttpResponseOk<u32>, HttpError> { Ok(HttpResponseOk(1)) }
+}
+
+/// {"op":"trait_tags"}: registration through the trait-based API macro, whose tag configuration is written in the macro arguments
+fn op_trait_tags(_case: &Value) -> Value {
+    json!({
+        "closed_rogue_rejected": closed_tags_api_mod::api_description::<TagsImpl>().is_err(),
+        "closed_rogue_stub_rejected": closed_tags_api_mod::stub_api_description().is_err(),
+        "closed_declared_rejected": closed_tags_ok_api_mod::api_description::<TagsImpl>().is_err(),
+        "open_rogue_rejected": open_tags_api_mod::api_description::<TagsImpl>().is_err(),
+    })
 }
 
 /// {"op":"register_tags","policy":"Any"|"AtLeastOne"|"ExactlyOne","allow_other":b,"tags":[..],"visible":b}
